@@ -238,15 +238,56 @@ let verdict case impl =
       let mk cid sh cnr = let cnr = hexn cnr in
         { cid = hexn cid; cinfo = (if cnr = N0 then None else Some ((hexn sh, cnr), msb)) } in
       let nrs = ref [] in
+      (* 'c' events (the CLIENT closed a pool connection) are outputs: compared with what the model lets go *)
+      let closed = ref [] in
       let evs = if evs_s = "-" then [] else
-          List.map (fun e ->
+          List.filter_map (fun e ->
               let body = String.sub e 1 (String.length e - 1) in
               match e.[0], String.split_on_char '.' body with
-              | 'r', [cid; sh; sap; cnr] -> (if not (List.mem cnr !nrs) then nrs := cnr :: !nrs); EvReady (mk cid sh cnr, sap = "1")
-              | 'b', [cid; sh; cnr] -> EvBroken (mk cid sh cnr)
+              | 'r', [cid; sh; sap; cnr] -> (if not (List.mem cnr !nrs) then nrs := cnr :: !nrs); Some (EvReady (mk cid sh cnr, sap = "1"))
+              | 'b', [cid; sh; cnr] -> Some (EvBroken (mk cid sh cnr))
+              | 'c', [_cid; sh; cnr] -> closed := (hexn sh, hexn cnr) :: !closed; None
               | _ -> failwith "bad event") (String.split_on_char ';' evs_s) in
+      (* The mock's READY order is not the order in which the driver's refiller handles the connections of one
+         burst.  Canonical order inside a maximal run of consecutive ready events, among connections of the SAME
+         (shard, shard count) only: the connection that was held longer was handled earlier (never closed by the client, or cut by the mock later: first; then by the
+         position of the client's close, latest first).  Which of two same-shard connections of a burst was
+         kept is thus read off the closes; how many are kept / let go, of which shard, and the resulting pool
+         remain predictions of the model. *)
+      let evs =
+        if evs_s = "-" then evs else begin
+          let toks = Array.of_list (String.split_on_char ';' evs_s) in
+          let cid_of t = List.hd (String.split_on_char '.' (String.sub t 1 (String.length t - 1))) in
+          let rank = Hashtbl.create 16 in
+          Array.iteri (fun i t -> match t.[0] with
+              | 'c' -> Hashtbl.replace rank (cid_of t) i
+              | 'b' -> Hashtbl.replace rank (cid_of t) max_int
+              | _ -> ()) toks;
+          let rk c = match Hashtbl.find_opt rank (hex_of_n c.cid) with Some r -> r | None -> max_int in
+          (* permute only connections of the SAME (shard, shard count) among the positions they occupy *)
+          let fix_run (run : pool_event list) : pool_event list =
+            let arr = Array.of_list run in
+            let key e = match e with EvReady (c, _) -> c.cinfo | EvBroken c -> c.cinfo in
+            let keys = List.sort_uniq compare (List.map key run) in
+            List.iter (fun k ->
+                let pos = List.filter (fun i -> key arr.(i) = k) (List.init (Array.length arr) (fun i -> i)) in
+                let els = List.map (fun i -> arr.(i)) pos in
+                let r e = match e with EvReady (c, _) -> rk c | EvBroken _ -> max_int in
+                let sorted = List.stable_sort (fun a b -> compare (r b) (r a)) els in
+                List.iter2 (fun i e -> arr.(i) <- e) pos sorted) keys;
+            Array.to_list arr in
+          let rec go acc run = function
+            | [] -> List.rev_append acc (fix_run (List.rev run))
+            | (EvReady _ as e) :: tl -> go acc (e :: run) tl
+            | e :: tl -> go (e :: List.rev_append (fix_run (List.rev run)) acc) [] tl in
+          go [] [] evs
+        end in
       let fin = if fin_s = "_" then [] else List.map hexn (String.split_on_char '+' fin_s) in
-      if refill_ok size evs fin then begin
+      if refill_ok size evs fin && not (refill_closed_ok size evs !closed) then
+        "diff refiller client-closed=" ^ String.concat "," (List.map (fun (a, b) -> hex_of_n a ^ "/" ^ hex_of_n b) !closed)
+        ^ " model-released=" ^ String.concat "," (List.map (fun c -> match c.cinfo with Some ((s, n), _) -> hex_of_n s ^ "/" ^ hex_of_n n | None -> "0/0")
+                                                   (refill_released size rf_init evs))
+      else if refill_ok size evs fin then begin
         (* which branches of the refiller model this history went through (for the coverage floors) *)
         let reqdrop = ref 0 and trimmed = ref 0 and reshards = ref 0 in
         let has r c = List.exists (fun x -> x.cid = c.cid) (List.concat r.rf_conns) || List.exists (fun x -> x.cid = c.cid) r.rf_excess in
